@@ -30,6 +30,8 @@ def run(ctx):
     runs = []
     pre = None
     for tag, cfg, _ in CFGS:
+        if tag in ("fxstmt", "ret") and not ctx.thorough:
+            continue  # quick-tier budget: these families are decided by C22/C23 in the quick tier
         sub = None
         if ctx.thorough and tag == "depth1":
             sub = {"MC_RetQuick": "MC_RetAll"}
